@@ -140,6 +140,17 @@ def check(ctx, case):
             ctx.violation("time_at:decreases", {"at": [str(prev[0]), prev[1].name, float(prev[2])],
                                                 "then": [str(b), t.name, float(got)], "timing": timing})
         prev = (b, t, got)
+    # third pass: hittable() / bpm_at() on the same beat right before each question (no cross-method state)
+    third = probes[:: max(1, len(probes) // 120)]
+    for b, t in third:
+        eng.hittable(bb[b])
+        eng.bpm_at(bb[b])
+        got = eng.time_at(bb[b], t)
+        ctx.mon("order_independence")
+        if got != first[(b, t)]:
+            ctx.violation("time_at:depends-on-an-earlier-hittable-or-bpm_at-call",
+                          {"beat": str(b), "tag": t.name, "alone": float(first[(b, t)]), "after_hittable": float(got), "timing": timing})
+            break
     if default_differs(eng, bb, beats, tl):
         ctx.violation("time_at:default-tag-is-not-STOP", {"timing": timing})
     ctx.notes["max_abs_error_s"] = max(ctx.notes.get("max_abs_error_s", 0.0), float(max_err))
@@ -195,7 +206,28 @@ def reuse_timing_data(ctx, timing, rng, bb, beats, tags):
     from simfile.timing.engine import TimingEngine
 
     td = TimingData(SSCSimfile(string=G.to_text(timing)))
-    TimingEngine(td).time_at(Beat(1))  # the first engine has been built and used
+    e1 = TimingEngine(td)
+    e1.time_at(Beat(1))  # the first engine has been built and used
+    # a redundant BPM change inserted in place (not at the end) must not change any answer of the engine built before
+    if len(timing["bpms"]) >= 2:
+        k = timing["bpms"][1][0] - 1
+        if k > 0 and all(kk != k for kk, _ in timing["bpms"]):
+            before = [(float(e1.time_at(bb[b])), e1.bpm_at(bb[b])) for b in beats]
+            td.bpms.insert(1, BeatValue(Beat(k, 48), Decimal(timing["bpms"][0][1])))
+            after = [(float(e1.time_at(bb[b])), e1.bpm_at(bb[b])) for b in beats]
+            ctx.mon("timing_data_reused")
+            if before != after:
+                i = next(i for i, (x, y) in enumerate(zip(before, after)) if x != y)
+                ctx.violation("reuse:engine-answers-change-after-redundant-bpm-inserted-into-its-timing-data",
+                              {"beat": str(beats[i]), "before": repr(before[i]), "after": repr(after[i]), "timing": timing})
+                return
+            e_new = TimingEngine(td)
+            for b, (t0, bpm0) in zip(beats, before):
+                # a new engine has one more state: times may differ in the last bits, not by more than the tolerance
+                if abs(float(e_new.time_at(bb[b])) - t0) > 1e-9 or e_new.bpm_at(bb[b]) != bpm0:
+                    ctx.violation("reuse:new-engine-after-redundant-bpm-differs", {"beat": str(b), "timing": timing})
+                    return
+            del td.bpms[1]
     last = max([k for key in ("bpms", "stops", "delays") for k, _ in timing[key]] + [k + l for k, l in timing["warps"]])
     edited = dict(timing)
     how = rng.choice(["stop", "offset", "bpm"])
